@@ -36,7 +36,12 @@ func countHelpers(w *World, enumerate, count *ssa.Function) (add, cnt *ssa.Funct
 		return f != nil && w.PkgName(f) == "solver" && f.Signature.Recv() != nil && typeShort(f.Signature.Recv().Type()) == "*solver.Solver" &&
 			f.Signature.Results().Len() == 1 && typeShort(f.Signature.Results().At(0).Type()) == "int"
 	}
-	for _, ci := range callsIn(enumerate) {
+	// (the call may sit in a function literal of Enumerate: `func() int { return s.addCurrentModels(models) }`)
+	sites := callsIn(enumerate)
+	for _, lit := range enumerate.AnonFuncs {
+		sites = append(sites, callsIn(lit)...)
+	}
+	for _, ci := range sites {
 		f := ci.Common().StaticCallee()
 		if !isSolverMethod(f) || f.Signature.Params().Len() != 1 {
 			continue
@@ -49,6 +54,14 @@ func countHelpers(w *World, enumerate, count *ssa.Function) (add, cnt *ssa.Funct
 		f := ci.Common().StaticCallee()
 		if isSolverMethod(f) && f.Signature.Params().Len() == 0 && f != count && f != enumerate {
 			cnt = f
+		}
+	}
+	// one helper for both (it counts, and delivers unless handed a nil channel)
+	if cnt == nil && add != nil {
+		for _, ci := range callsIn(count) {
+			if ci.Common().StaticCallee() == add && len(ci.Common().Args) == 2 && isNilConst(ci.Common().Args[1]) {
+				cnt = add
+			}
 		}
 	}
 	return
@@ -65,7 +78,10 @@ func asymEnumerateCount() []e7asym {
 				return f.Kind == "call" && f.Name == "builtin:copy" && len(f.Nodes) == 2 && e7isFieldLoad(f.Nodes[0], "solver.Solver.lastModel")
 			}},
 		{Name: "delivery of the models", Reason: "only Enumerate materialises and sends the models (addCurrentModels); its count is compared with countCurrentModels' separately and through the returned total",
-			Match: func(f *e7fact) bool { return f.viaHas(fnAddCurrent) }},
+			// (the counting helper reached through the delivering one is not delivery: it is compared like a direct call)
+			Match: func(f *e7fact) bool {
+				return f.viaHas(fnAddCurrent) && (fnCountCurrent == fnAddCurrent || !f.viaHas(fnCountCurrent))
+			}},
 	}
 }
 
@@ -90,6 +106,27 @@ func ruleR5_2(w *World, r *Report) {
 		// both count helpers are expanded in both siblings, so that the returned totals compare by what is computed
 		opts.ForceInline = []string{fnAddCurrent, fnCountCurrent}
 	}
+	// a helper private to the pair (an unexported method only the two call: the step they share, extracted) is
+	// expanded in both, so that the comparison keeps speaking about what that step does
+	for _, ci := range callsIn(a) {
+		h := ci.Common().StaticCallee()
+		if h == nil || !w.InModule(h) || h.Object() == nil || h.Object().Exported() || h.Parent() != nil || len(h.Blocks) == 0 {
+			continue
+		}
+		private, calledByB := true, false
+		for _, site := range w.Callers[h] {
+			switch site.Parent() {
+			case a:
+			case b:
+				calledByB = true
+			default:
+				private = false
+			}
+		}
+		if private && calledByB {
+			opts.ForceInline = append(opts.ForceInline, w.FuncName(h))
+		}
+	}
 	res := e7Compare(w, a, b, opts, asym)
 	e7Report(w, r, "R5.2", "Enumerate~CountModels", res, asym, w.Pos(a.Pos()))
 	shared := 0
@@ -107,6 +144,10 @@ func ruleR5_2(w *World, r *Report) {
 	if add == nil || cnt == nil {
 		// a refactoring may have merged them; then there is nothing to compare and the totals above speak for it
 		r.OK("R5.2", key, w.Pos(a.Pos()), "the two count helpers no longer both exist; the returned totals are compared by the sibling facts")
+		return
+	}
+	if add == cnt {
+		r.OK("R5.2", key, w.Pos(add.Pos()), "one helper serves both functions; the returned totals are compared by the sibling facts")
 		return
 	}
 	cres := e7Compare(w, add, cnt, e7opts{}, nil)
